@@ -30,6 +30,14 @@ def build():
     if not (isinstance(rx, ast.Call) and rx.args and isinstance(rx.args[0], ast.Constant)
             and rx.args[0].value == r"([A-Za-z_][A-Za-z0-9_]*)(\+?=)(.*)"):
         raise TieBroken("_ASSIGNED_NAME: the regular expression changed")
+    az = func(an, "analyze")
+    strips = [c.args[0].value for c in ast.walk(az) if isinstance(c, ast.Call) and isinstance(c.func, ast.Attribute) and c.func.attr == "strip"
+              and len(c.args) == 1 and isinstance(c.args[0], ast.Constant) and isinstance(c.args[0].value, str)]
+    notin = [c.comparators[0].value for c in ast.walk(az) if isinstance(c, ast.Compare) and len(c.ops) == 1 and isinstance(c.ops[0], ast.NotIn)
+             and isinstance(c.comparators[0], ast.Constant) and isinstance(c.comparators[0].value, str)]
+    if len(strips) != 1 or notin != strips:
+        raise TieBroken("analyze: expected command.strip(<blanks>) and one `c not in <the same blanks>` test")
+    out.append(f"(* core/analyzer.py analyze: the characters bash separates words at (stripped; any other white space asks) *)\nDefinition ANALYZE_STRIP : str := {coq_str(strips[0])}.\n")
     unk = module_assign(an, "_UNKNOWN_CWD")
     if not (isinstance(unk, ast.Call) and getattr(unk.func, "id", None) == "Path" and len(unk.args) == 1):
         raise TieBroken("_UNKNOWN_CWD: expected Path(<string expression>)")
